@@ -577,7 +577,7 @@ func (fr *Frame) execBranch(s *State, x *ast.BranchStmt) *State {
 				if lc.spec != nil {
 					// break hints: stepping stones proved in the state of this break and available after the loop
 					for i, h := range lc.spec.BreakHints {
-						t := fr.evalClause(s, h, x.Pos(), nil)
+						t := fr.evalClause(s, h, x.Pos(), lc.extra)
 						fr.vc.oblige(s, fmt.Sprintf("break-hint.L%d.", lc.ord), t, x.Pos(), fmt.Sprintf("loop %d break hint %d: %s", lc.ord, i+1, h.Text))
 						s.assume(t)
 					}
@@ -593,6 +593,7 @@ func (fr *Frame) execBranch(s *State, x *ast.BranchStmt) *State {
 				continue
 			}
 			if x.Label == nil || lc.label == x.Label.Name {
+				fr.stepHints(s, lc, x.Pos())
 				lc.continues = append(lc.continues, s)
 				return nil
 			}
@@ -754,4 +755,17 @@ func (fr *Frame) execTypeSwitch(s *State, x *ast.TypeSwitchStmt, label string) *
 	}
 	outs = append(outs, lc.breaks...)
 	return mergeAll(outs)
+}
+
+// stepHints proves the loop's step hints in the state of one path through the body (a `continue`, or the normal
+// end of the body) and makes them available to the invariant-preservation obligations of the merged state.
+func (fr *Frame) stepHints(s *State, lc *loopCtx, pos token.Pos) {
+	if s == nil || lc == nil || lc.spec == nil {
+		return
+	}
+	for i, h := range lc.spec.StepHints {
+		t := fr.evalClause(s, h, pos, lc.extra)
+		fr.vc.oblige(s, fmt.Sprintf("step-hint.L%d.", lc.ord), t, pos, fmt.Sprintf("loop %d step hint %d: %s", lc.ord, i+1, h.Text))
+		s.assume(t)
+	}
 }
